@@ -240,7 +240,93 @@ def e2e_case(args):
         srv.shutdown()
 
 
+def cget_case(seed):
+    """C-GET whose C-STORE sub-operations arrive on SEVERAL presentation contexts of the same SOP class (one per transfer
+    syntax): the requestor's EVT_C_STORE handler must see each data set as it was sent, under the syntax it was sent in"""
+    import random
+
+    from pydicom import uid as U
+    from pydicom.dataset import Dataset, FileMetaDataset
+    from pynetdicom import AE, build_role, evt
+    from pynetdicom.dsutils import encode
+    from pynetdicom.sop_class import CTImageStorage, PatientRootQueryRetrieveInformationModelGet as G
+
+    from harness import e2e
+
+    e2e.quiet()
+    rng = random.Random(seed)
+    TSS = [U.ImplicitVRLittleEndian, U.ExplicitVRLittleEndian, U.ExplicitVRBigEndian, U.DeflatedExplicitVRLittleEndian]
+    rng.shuffle(TSS)
+    tss = TSS[: rng.choice([2, 3, 4])]
+    origs = []
+    for ts in tss:
+        ds = gen_dataset(rng)
+        ds.file_meta = FileMetaDataset()
+        ds.file_meta.TransferSyntaxUID = ts
+        ds.file_meta.MediaStorageSOPClassUID, ds.file_meta.MediaStorageSOPInstanceUID = ds.SOPClassUID, ds.SOPInstanceUID
+        origs.append(ds)
+
+    def h_get(event):
+        yield len(origs)
+        for ds in origs:
+            yield 0xFF00, ds
+
+    got = []
+
+    def h_store(event):
+        ts = event.context.transfer_syntax
+        try:
+            got.append({"cx": event.context.context_id, "ts": str(ts), "meta_ts": str(event.file_meta.TransferSyntaxUID),
+                        "raw": event.encoded_dataset(include_meta=False), "ds": canon(event.dataset, ts)})
+        except Exception as exc:
+            got.append({"cx": event.context.context_id, "ts": str(ts), "exc": repr(exc)})
+        return 0x0000
+
+    ae = AE()
+    ae.add_supported_context(G)
+    for ts in tss:
+        ae.add_supported_context(CTImageStorage, ts, scu_role=True, scp_role=True)
+    ae.acse_timeout = ae.dimse_timeout = ae.network_timeout = 10
+    srv = ae.start_server(("127.0.0.1", 0), block=False, evt_handlers=[(evt.EVT_C_GET, h_get)])
+    out = {"seed": seed, "tss": [t.name for t in tss]}
+    try:
+        cl = AE()
+        cl.add_requested_context(G)
+        for ts in tss:
+            cl.add_requested_context(CTImageStorage, ts)
+        cl.acse_timeout = cl.dimse_timeout = cl.network_timeout = 10
+        a = cl.associate("127.0.0.1", srv.socket.getsockname()[1], ext_neg=[build_role(CTImageStorage, scp_role=True)],
+                         evt_handlers=[(evt.EVT_C_STORE, h_store)])
+        if not a.is_established:
+            return {"error": "not established"}
+        ident = Dataset()
+        ident.QueryRetrieveLevel, ident.PatientID = "PATIENT", "*"
+        finals = [getattr(st, "Status", None) for st, _ in a.send_c_get(ident, G) if st]
+        a.release()
+        out["final"] = finals[-1] if finals else None
+        bad = []
+        for ds, ts in zip(origs, tss):
+            want_raw = encode(ds, ts.is_implicit_VR, ts.is_little_endian, ts.is_deflated)
+            g = next((x for x in got if x.get("raw") == want_raw), None)
+            if g is None:
+                bad.append(f"{ts.name}: no sub-operation delivered these bytes ({[ (x['cx'], x.get('exc')) for x in got]})")
+            elif g.get("ts") != str(ts) or g.get("meta_ts") != str(ts) or g.get("ds") != canon(ds, ts):
+                bad.append(f"{ts.name}: handled as context {g['cx']} / {g.get('ts')}, file meta says {g.get('meta_ts')}, data set intact={g.get('ds') == canon(ds, ts)}")
+        out["bad"] = bad
+        out["n"] = len(got)
+        return out
+    finally:
+        srv.shutdown()
+
+
 def _job(args):
+    if args[0] == "cget":
+        try:
+            return cget_case(args[1])
+        except Exception:
+            import traceback
+
+            return {"harness_error": traceback.format_exc()[-1200:]}
     import threading
 
     box = {}
@@ -302,12 +388,21 @@ def run(ctx):
             label = ctx.rng.choice([t for t in TS if t not in (ts_name, "ExplicitVRBigEndian")])
         jobs.append((ctx.rng.getrandbits(30), ts_name, ctx.rng.choice([0, 1024, 4096, 16382]),
                      ctx.rng.random() < 0.5, ctx.rng.random() < 0.4, label))
+    cjobs = [("cget", ctx.rng.getrandbits(30)) for _ in range(ctx.n(6, 120))]
     pool = mp.get_context("fork").Pool(processes=12, maxtasksperchild=10)
     try:
         results = pool.map(_job, jobs, chunksize=1)
+        cresults = pool.map(_job, cjobs, chunksize=1)
     finally:
         pool.terminate()
         pool.join()
+    for job, r in zip(cjobs, cresults):
+        case = ["cget", job[1]]
+        ctx.case(case, nontrivial=True, kind="cget:sub-operations-on-several-contexts")
+        if "harness_error" in r or "error" in r:
+            ctx.diff(case, r, "n/a", "scenario harness failed")
+        elif r["bad"] or r["n"] != len(r["tss"]):
+            ctx.fail("cget:sub-operation-dataset-under-wrong-context", f"C-GET with CT Image Storage accepted under {r['tss']}: {r['bad']} ({r['n']} sub-operations handled)", case)
     for job, r in zip(jobs, results):
         case = ["e2e", *job]
         ctx.case(case, kind=f"e2e:{job[1]}:recv{'C' if job[3] else 'M'}:send{'C' if job[4] else 'S'}" + (":converted" if job[5] != job[1] else ""))
@@ -325,6 +420,10 @@ def replay(ctx, case):
     c = case["case"]
     if c[0] == "e2e":
         print(_job(tuple(c[1:])))
+    elif c[0] == "cget":
+        r = cget_case(c[1])
+        print(r)
+        return 1 if r.get("bad") else 0
     else:
         print(c)
     return 0
